@@ -168,6 +168,7 @@ type RunResult struct {
 	VirtualNs  int64
 	TaskPanics []string
 	BubbleErr  string
+	Externals  int
 }
 
 // RunSim executes body as the client task of a fresh simulated world inside a fresh bubble.
@@ -187,6 +188,9 @@ func RunSim(t *testing.T, seed uint64, pol sim.Policy, maxSteps int, horizon tim
 				k.MaxSteps = maxSteps
 			}
 			k.HorizonN = int64(horizon)
+			if sim.RaceEnabled {
+				k.MaxIdleJump = 5000
+			}
 			body, freeze := setup(k)
 			k.Go("client", body)
 			res.Verdict = k.Run()
@@ -194,6 +198,7 @@ func RunSim(t *testing.T, seed uint64, pol sim.Policy, maxSteps int, horizon tim
 			res.Digest = k.Digest()
 			res.SchedHash = k.SchedHash()
 			res.VirtualNs = k.Now()
+			res.Externals = k.Externals
 			if res.Verdict != sim.AllDone {
 				res.Unfinished = k.Unfinished()
 			}
@@ -228,7 +233,7 @@ func containsAny(s string, subs ...string) bool {
 
 // Freeze stops the server history (called before the tasks are unwound in abort mode).
 func (e *NetEnv) Freeze() {
-	e.Srv.H.Frozen = true
+	e.Srv.H.Freeze()
 }
 
 // RunPlain runs f with deterministic crypto/rand, outside any bubble (render-only properties
